@@ -125,6 +125,15 @@ ChainDescs ==
 Msg10 == Raw12(F12Exp(GTGen, Mu(10)))
 EncStepC(L) == [a |-> "encrypt", attrs |-> L, mu |-> Pad(Mu(10), 32), msg |-> Msg10, t |-> Pad(Rand(11), 32), stream |-> Stream(Rand(11))]
 ProbeTail(key, K) == << EncStepC(FixedList(K)), DecStep(key + 1, key), DecMasterStep(key + 1) >>
+\* keys moved by adjust_nondelegable are keys like any other: slot list, elements, decryption (C14 owns the equality with re-derivation)
+AdjustedKeyHistories ==
+  LET P == P3(1)  v7 == FromNat(7)
+      pls == { ListOf(<<<<"U">>, <<"U">>, <<"U">>>>, 1), ListOf(<<<<"U">>, <<"H">>, <<"U">>>>, 1) }
+  IN UNION { LET Kp == W!NdKeyGen(P, Spec(pl), 0) IN
+       { History(L3, 1, <<NdKeygenStep(pl, 0), NdQualStep(1, fr, 0), AdjNdStep(2, 1, fr, to)>> \o ProbeTail(3, W!NdQualify(P, Kp, Spec(to), 0)), "deleg", "adjusted")
+         : fr \in { ListOf(ch, 1) : ch \in { c \in { <<<<"V", v7>>, <<"U">>, <<"U">>>>, <<<<"U">>, <<"U">>, <<"V", FromNat(9)>>>> } : W!PermittedQual(P, Kp, Spec(ListOf(c, 1))) } },
+           to \in { ListOf(ch, 1) : ch \in { c \in { <<<<"U">>, <<"U">>, <<"V", FromNat(9)>>>>, <<<<"V", FromNat(3)>>, <<"U">>, <<"U">>>>, <<<<"U">>, <<"U">>, <<"U">>>> } : W!PermittedQual(P, Kp, Spec(ListOf(c, 1))) } } }
+     : pl \in pls }
 BuildDeleg(d) ==
   LET sg == d[1]  P == P3(sg)
       K1 == Key1(P, d[2], d[3], d[4])
@@ -196,6 +205,10 @@ SigCases ==
      \cup { History(L3, 1, <<KeygenStep(ListOf(<<<<"V", v7>>, <<"U">>, <<"U">>>>, 1), 0, 0), QualStep(1, ListOf(<<<<"V", v7>>, <<"V", FromNat(9)>>, <<"U">>>>, 1), 0, 4),
                               SignStep(2, ListOf(<<<<"V", v7>>, <<"V", FromNat(9)>>, <<"V", FromNat(5)>>>>, 1), One, 5), VerStep(ListOf(<<<<"V", v7>>, <<"V", FromNat(9)>>, <<"V", FromNat(5)>>>>, 1), 3, One),
                               VerStep(ListOf(<<<<"V", v7>>, <<"V", FromNat(9)>>, <<"U">>>>, 1), 3, One)>>, "sig", "after-qualify") }
+     \* signing with a re-randomised key (with and without further delegation: every component, the signature element included, moves to the new randomness)
+     \cup { History(L3, 1, <<KeygenStep(ListOf(<<<<"V", v7>>, <<"U">>, <<"U">>>>, 1), 0, 0), PreStep(ListOf(<<<<"V", v7>>, <<"U">>, <<"U">>>>, 1)), ResampleStep(1, 2, fu, 8),
+                              SignStep(3, ListOf(<<<<"V", v7>>, <<"U">>, <<"U">>>>, 1), m, 4), VerStep(ListOf(<<<<"V", v7>>, <<"U">>, <<"U">>>>, 1), 4, m),
+                              VerStep(ListOf(<<<<"V", v7>>, <<"U">>, <<"U">>>>, 1), 4, OtherMsg(m))>>, "sig", "after-resample") : fu \in {0, 1}, m \in { One, Zero, Add(RMod, FromNat(5)) } }
      \* signing with a key that was moved by adjust_nondelegable (its free-slot table was rewritten): for the adjusted list and for extensions of it
      \cup UNION { LET pl == ListOf(<<<<"U">>, <<"U">>, <<"U">>>>, 1) IN
                   { History(L3, 1, <<NdKeygenStep(pl, 0), NdQualStep(1, fr, 0), AdjNdStep(2, 1, fr, to), SignStep(3, to, One, 4), VerStep(to, 4, One),
@@ -277,7 +290,7 @@ Keep == IF "KEEP" \in DOMAIN IOEnv THEN atoi(IOEnv.KEEP) ELSE 1        \* keep o
 \* drop whole classes, e.g. every history in which the two flags differ)
 Mix(i) == (((i * 7919 + Seed * 104729 + 12345) % 1000003) * 31 + i) % 1000003
 Thinned(sq) == LET sel == SelectSeq([i \in 1..Len(sq) |-> i], LAMBDA i : Mix(i) % Keep = 0 /\ i % NShards = Shard) IN [k \in 1..Len(sel) |-> sq[sel[k]]]
-Cases == CASE Family = "deleg" -> LET ds == Thinned(SetToSeq(DelegDescs) \o SetToSeq(ChainDescs)) \o (IF Shard = 0 THEN SetToSeq(HvDescs) ELSE <<>>) IN [k \in 1..Len(ds) |-> BuildDeleg(ds[k])]
+Cases == CASE Family = "deleg" -> LET ds == Thinned(SetToSeq(DelegDescs) \o SetToSeq(ChainDescs)) \o (IF Shard = 0 THEN SetToSeq(HvDescs) ELSE <<>>) IN [k \in 1..Len(ds) |-> BuildDeleg(ds[k])] \o (IF Shard = 0 THEN SetToSeq(AdjustedKeyHistories) ELSE <<>>)
            [] Family = "neg" -> Thinned(SetToSeq(NegCases(1)))
            [] Family = "sig" -> Thinned(SetToSeq(SigCases))
            [] Family = "inplace" -> Thinned(InplaceCases)
